@@ -172,15 +172,28 @@ def _and_chain_dominates(fn, cfg, start, target):
 
 def len_guard(fn, du, cfg, site):
     """Index::index(container, const c) dominated by a test on container.len()"""
-    if site.kind != "K4" or "Index" not in site.what:
-        return None
     t = site.term
-    if len(t["args"]) < 2:
-        return None
-    c = _const_int(fn, du, t["args"][1])
-    if c is None:
-        return None
-    cont = mir.provenance(fn, du, t["args"][0])
+    if site.kind == "K3" and site.what == "BoundsCheck" and t["k"] == "assert":
+        # the built-in bounds check of a slice / array place: assert(const c < PtrMetadata(container))
+        cpl = mir.op_place(t["cond"])
+        ds = du.defs.get(cpl["l"], []) if cpl is not None and not cpl["p"] else []
+        if len(ds) != 1 or ds[0][0] != "stmt" or ds[0][3]["rv"]["k"] != "binop" or ds[0][3]["rv"]["op"] != "Lt":
+            return None
+        c = _const_int(fn, du, ds[0][3]["rv"]["a"])
+        lpl = mir.op_place(ds[0][3]["rv"]["b"])
+        ls = du.defs.get(lpl["l"], []) if lpl is not None and not lpl["p"] else []
+        if c is None or len(ls) != 1 or ls[0][0] != "stmt" or ls[0][3]["rv"]["k"] != "unop" or ls[0][3]["rv"]["op"] != "PtrMetadata":
+            return None
+        cont = mir.provenance(fn, du, ls[0][3]["rv"]["a"])
+    else:
+        if site.kind != "K4" or "Index" not in site.what:
+            return None
+        if len(t["args"]) < 2:
+            return None
+        c = _const_int(fn, du, t["args"][1])
+        if c is None:
+            return None
+        cont = mir.provenance(fn, du, t["args"][0])
     croots = {repr(o) for o in cont}
     for bi, b2 in enumerate(fn["blocks"]):
         if b2["cleanup"] or bi not in cfg.reach:
@@ -632,6 +645,15 @@ def try_in_callers(F, f, site, max_depth=2):
         if not sites:
             return None
         paths = {g["path"] for g in chain}
+        # the guard may itself sit in a small helper the moved site's function calls (`check_arg_count(args, 1)?; args[0]`
+        # inside `lower_single_arg`): those helpers come along
+        helpers = set()
+        for g in chain:
+            for _bi, tm in mir.calls(g):
+                c = F.fns.get(tm.get("resolved") or tm.get("callee") or "")
+                if c is not None and c["crate"] == g["crate"] and not c.get("impl_trait") and not c.get("trait_default") \
+                        and len(c["blocks"]) <= 60 and c["path"] not in paths:
+                    helpers.add(c["path"])
         reasons = []
         seen_callers = set()
         for caller, t in sites:
@@ -639,10 +661,10 @@ def try_in_callers(F, f, site, max_depth=2):
                 continue
             seen_callers.add(caller["path"])
 
-            def want(t2, callee, paths=paths):
-                return callee["path"] in paths
+            def want(t2, callee, paths=paths, helpers=helpers):
+                return callee["path"] in paths or (callee["path"] in helpers)
             try:
-                body = mir.inline_calls(F, F.built.get(caller["path"], caller), want=want, depth=len(chain))
+                body = mir.inline_calls(F, F.built.get(caller["path"], caller), want=want, depth=len(chain) + (1 if helpers else 0))
             except Exception:
                 return None
             copies = [bi for bi, b in enumerate(body["blocks"]) if b.get("inl") == f["path"] and b.get("inl_bb") == site.bb and not b["cleanup"]]
